@@ -233,7 +233,7 @@ def run(ctx):
     timing["corpus"] = round(time.time() - t0, 1)
 
     # ---- 2. random (CFG, schedule) pairs: impl vs model vs spec
-    n_rand = 1000 if ctx.quick else 6000
+    n_rand = 1000 if ctx.quick else 10000
     cases = [rand_case(r) for _ in range(n_rand)]
     impl = impl_batch(ctx, "run", cases)
     timing["impl_random"] = round(time.time() - t0, 1)
@@ -286,7 +286,7 @@ def run(ctx):
         small += list(small_space(3, ["live0", "ass0"], r, 1))[::23]
         small += [dict(rand_case(r, nmax=5, nvars=2), sched=[]) for _ in range(300)]
     else:
-        small += list(small_space(3, ["live0", "live1", "ass0", "ass2"], r, 2))[::6]
+        small += list(small_space(3, ["live0", "live1", "ass0", "ass2"], r, 2))[::2]
         small += [dict(rand_case(r, nmax=6, nvars=2), sched=[]) for _ in range(3000)]
     timing["spec_random"] = round(time.time() - t0, 1)
     bad_small = check_explored(small, "search")
